@@ -149,6 +149,25 @@ class C09(Property):
                      "faultsched cff fTimedOut cfe", "faultsched cef cbb fWouldBlock cbf", "faultsched c5b c47 fOther", "faultsched cfeff000a fPermissionDenied",
                      "faultsched cfeff0a fUnexpectedEof c41000a"]:
             cases.append(Case(line, tags=("read", "corner")))
+        # the first bytes arrive one or two at a time WITH interruptions between them (before three bytes - a whole BOM - are collected):
+        # what was already taken must not be lost when the poll is retried (seed C09-s: the retry restarted the BOM probe from scratch)
+        for _ in range(80 if quick else 2500):
+            text, _ = gen_text(rng)
+            enc = rng.choice(ENCODINGS)
+            data = encodings(text)[enc]
+            if len(data) < 4:
+                continue
+            toks, pos = [], 0
+            while pos < min(len(data), rng.choice([3, 4, 6])):
+                n = rng.choice([1, 1, 2])
+                toks.append("c" + data[pos:pos + n].hex())
+                pos += n
+                if rng.random() < 0.7:
+                    toks += ["i"] * rng.choice([1, 1, 2])
+            toks += chunk_random(data[pos:], rng) if pos < len(data) else []
+            if rng.random() < 0.5:
+                toks = ["i"] + toks
+            cases.append(Case("faultsched " + " ".join(toks), tags=("read", "short-first-chunks+intr", enc)))
         # an end-of-input indication (a read of 0 bytes) FOLLOWED by transient interruptions, for inputs shorter than a BOM and longer ones:
         # every poll of the source retries `Interrupted`, also one made after an empty buffer was seen (seed C09-q: the BOM probe re-polls)
         shorts = [b"", b"\n", b"\r\n", b"[", b"ab", b"\xef\xbb", b"\xff\xfe", b"\xfe\xff", b"o", b"\xef", b"[General]\nMode: 1\n", "\ufeffosu file format v9\n".encode()]
